@@ -612,7 +612,7 @@ func ssRunC11(cfg ssCfg, prog []ssStep, end ssEnd, root string) ssResult {
 			_, live := s.trk.live[h]
 			openAtEnd := !mapped || (live && !closeSent[h]) // an unmapped object belongs to the unanswered last OPEN
 			wantTE := 0
-			if openAtEnd && o.HasTE { // no lister variant has the method
+			if openAtEnd && o.HasTE && o.Kind != "lister" { // a ListerAt is never told (its variants have the method, to see it)
 				wantTE = 1
 			}
 			if openAtEnd {
